@@ -1,0 +1,18 @@
+//go:build verif
+
+// Contracts for the backend object names (C20), checked by /verif (govc). Comment-only file.
+
+package s3proxy
+
+// <prefix>/cas.v2/<hash[:2]>/<hash> for CAS blobs, <prefix>/<ac|raw>/<hash[:2]>/<hash> otherwise;
+// the prefix part is omitted when the prefix is empty.
+//@ func objectKeyV2(prefix string, hash string, kind cache.EntryKind) string
+//@   serves C20
+//@   requires len(hash) >= 2
+//@   ensures[C20] cas: kind == 1 ==> result == (prefix == "" ? pjoin3("cas.v2", hash[0:2], hash) : pjoin2(prefix, pjoin3("cas.v2", hash[0:2], hash)))
+//@   ensures[C20] other: kind != 1 ==> result == (prefix == "" ? pjoin3(kindName(kind), hash[0:2], hash) : pjoin2(prefix, pjoin3(kindName(kind), hash[0:2], hash)))
+
+//@ func objectKeyV1(prefix string, hash string, kind cache.EntryKind) string
+//@   serves C20
+//@   requires len(hash) >= 2
+//@   ensures[C20] form: result == (prefix == "" ? pjoin3(kindName(kind), hash[0:2], hash) : pjoin4(prefix, kindName(kind), hash[0:2], hash))
